@@ -47,7 +47,7 @@ def rule_pinray(fx, rep):
     root of the suite contains."""
     ok = True
     n = 0
-    sites = [(sb, bb, t, ctor, src) for (sb, bb, t, ctor, b, src, dst) in ctor_sites(fx) if sb is b and ctor in ("capture", "capture_promotion")]
+    sites = [(b, bb if sb is b else None, t, ctor, src) for (sb, bb, t, ctor, b, src, dst) in ctor_sites(fx) if ctor in ("capture", "capture_promotion")]
     for (b, bb, t) in fx.callers_of(lambda nm: nm.endswith("Move::en_passant")):
         if norm(b.name).startswith("chess::movegen::gen::") and "::tests::" not in b.name:
             sites.append((b, bb, t, "en_passant", b.expr(t["args"][0], expand_named=True, at=bb)))
@@ -65,7 +65,7 @@ def rule_pinray(fx, rep):
             if isinstance(d, tuple) and d and d[0] == "call" and d[1].endswith("Not>::not") and deep_strip(d[2][0])[:2] == ("arg", dl):
                 why = "its source pawns exclude every diagonally pinned pawn"
         # a dominating `contains(diagonal_pins, pawn)` == false
-        for (e, pol, w) in guard_conditions(f, bb, expand_named=True):
+        for (e, pol, w) in (guard_conditions(f, bb, expand_named=True) if bb is not None else []):
             d = deep_strip(e)
             if pol is False and isinstance(d, tuple) and d and d[0] == "call" and d[1].endswith("Bitboard::contains") and deep_strip(d[2][0])[:2] == ("arg", dl):
                 why = "it is generated only if the pawn is not diagonally pinned"
